@@ -520,7 +520,7 @@ impl Sim for SimE {
         ]
     }
     fn default_runs(&self) -> (u64, u64) {
-        (6_000, 300_000)
+        (1_000_000, 30_000_000)
     }
 
     fn plan(&self, rng: &mut Rng, sub: usize) -> ScenarioE {
